@@ -8,12 +8,14 @@ from ..serial import outcome
 from ..backend import make_backend
 
 RS, US, GS = "\x1e", "\x1f", "\x1d"
-UIDS = [f"00000000-0000-4000-8000-00000000000{k}" for k in (1, 2, 3, 4)]
+UIDS = [f"00000000-0000-4000-8000-00000000000{k}" for k in (1, 2, 3, 4, 5)]
 RULES = [
     {"title": "R1", "name": "r1", "id": UIDS[0], "logsource": {"category": "c"}, "detection": {"sel": {"fieldA": "v1"}, "condition": "sel"}},
     {"title": "R2", "name": "r2", "id": UIDS[1], "logsource": {"category": "c"}, "detection": {"sel": {"fieldX": "v2"}, "other": {"g1": 2}, "condition": ["sel", "sel and not other"]}},
     {"title": "R3", "id": UIDS[2], "logsource": {"category": "c"}, "detection": {"sel": {"fieldA|contains": "v3"}, "condition": "sel"}},
     {"title": "R4", "name": "r4", "id": UIDS[3], "logsource": {"category": "c"}, "detection": {"sel": {"fieldB": ["v4", "w4"]}, "condition": "sel"}},
+    # rule 5 is itself a correlation rule (over rule 1): a correlation rule may be referred to like any other rule
+    {"title": "R5", "name": "r5", "id": UIDS[4], "correlation": {"type": "event_count", "rules": ["r1"], "group-by": ["g1"], "timespan": "1h", "condition": {"gte": 3}}},
 ]
 TYPES = ["event_count", "value_count", "temporal", "temporal_ordered", "value_sum", "value_avg", "value_percentile", "value_median"]
 
@@ -24,7 +26,7 @@ def K_of(B):
         correlation_methods={m: "verif"},
         default_correlation_method=m,
         default_correlation_query={m: "{search}" + RS + "{typing}" + RS + "{aggregate}" + RS + "{condition}"},
-        correlation_search_single_rule_expression="SINGLE" + GS + "{query}" + GS + "{normalization}",
+        correlation_search_single_rule_expression="SINGLE" + GS + "{ruleid}" + GS + "{query}" + GS + "{normalization}",
         correlation_search_multi_rule_expression="MULTI" + US + "{queries}",
         correlation_search_multi_rule_query_expression="{ruleid}" + GS + "{query}" + GS + "{normalization}",
         correlation_search_multi_rule_query_expression_joiner=US,
@@ -100,8 +102,11 @@ def drive_case(case):
         return go
 
     used = sorted(set(c["refs"]))
-    alone = [outcome(conv([RULES[k]]))["out"] for k in range(4)]
-    ret = outcome(conv([RULES[k - 1] for k in used] + [corr_doc(c)]))
+    alone = [outcome(conv([RULES[k]]))["out"] for k in range(4)] + [outcome(conv([RULES[0], RULES[4]]))["out"][-1:]]
+    docs = [RULES[k - 1] for k in used]
+    if 5 in used and 1 not in used:
+        docs = [RULES[0]] + docs
+    ret = outcome(conv(docs + [corr_doc(c)]))
     return {"id": case["id"], "c": c, "B": B, "uids": [cps(u) for u in UIDS], "alone": alone, "ret": ret}
 
 
